@@ -5,30 +5,118 @@ package singleflight
 // Add-only observation helpers for the C16 correspondence driver (compiled into this package
 // through `go build -overlay`; nothing is written under /repo). They read the group's state
 // under the group's own mutex and never change it.
+//
+// The helpers do not NAME any unexported field or type of this package (a rename such as
+// `m` -> `inflight`, `dups` -> `joined`, `wg` -> `done`, `call` -> `flight` is a harmless
+// refactoring and must not break the driver's build). The fields are located once, at start-up,
+// by their TYPE with reflect, and read through unsafe pointers at the offsets found:
+//
+//	Group: the only field of type sync.Mutex                          (the group's lock)
+//	       the only field of a type map[string]*<struct>              (the in-flight calls)
+//	<struct> (the map's element, `call` today):
+//	       the only field of kind int                                 (the count of callers that joined)
+//	       the only field of type sync.WaitGroup                      (released when fn has returned)
+//
+// If the shape is ambiguous or different (two int fields, an RWMutex, a sync.Map, ...) the helpers
+// cannot know what to observe: start-up panics with a message that says what was looked for and what
+// was found; the driver exits non-zero and the check reports a broken correspondence — never a guess.
+
+import (
+	"fmt"
+	"reflect"
+	"sync"
+	"unsafe"
+)
+
+type verifShape struct {
+	mu, calls  uintptr      // offsets in Group
+	callsType  reflect.Type // map[string]*<struct>
+	dups, done uintptr      // offsets in <struct>
+}
+
+var verifLayout = verifResolveShape()
+
+func verifFieldList(t reflect.Type) string {
+	s := ""
+	for i := 0; i < t.NumField(); i++ {
+		if i > 0 {
+			s += "; "
+		}
+		s += t.Field(i).Name + " " + t.Field(i).Type.String()
+	}
+	return t.String() + " { " + s + " }"
+}
+
+// verifOnly returns the offset of the only field of t that satisfies want.
+func verifOnly(t reflect.Type, what string, want func(reflect.StructField) bool) (uintptr, reflect.Type) {
+	found := -1
+	for i := 0; i < t.NumField(); i++ {
+		if want(t.Field(i)) {
+			if found >= 0 {
+				panic(fmt.Sprintf("verif shim (singleflight, C16): set-up failure: %s has more than one field that is %s (%s and %s): "+
+					"which one to observe is ambiguous; shape found: %s", t, what, t.Field(found).Name, t.Field(i).Name, verifFieldList(t)))
+			}
+			found = i
+		}
+	}
+	if found < 0 {
+		panic(fmt.Sprintf("verif shim (singleflight, C16): set-up failure: %s has no field that is %s; shape found: %s", t, what, verifFieldList(t)))
+	}
+	return t.Field(found).Offset, t.Field(found).Type
+}
+
+func verifResolveShape() verifShape {
+	var sh verifShape
+	g := reflect.TypeOf(Group{})
+	sh.mu, _ = verifOnly(g, "a sync.Mutex", func(f reflect.StructField) bool { return f.Type == reflect.TypeOf(sync.Mutex{}) })
+	sh.calls, sh.callsType = verifOnly(g, "a map[string]*<struct> of in-flight calls", func(f reflect.StructField) bool {
+		t := f.Type
+		return t.Kind() == reflect.Map && t.Key().Kind() == reflect.String && t.Elem().Kind() == reflect.Ptr && t.Elem().Elem().Kind() == reflect.Struct
+	})
+	c := sh.callsType.Elem().Elem()
+	sh.dups, _ = verifOnly(c, "of kind int (the count of joined callers)", func(f reflect.StructField) bool { return f.Type.Kind() == reflect.Int })
+	sh.done, _ = verifOnly(c, "a sync.WaitGroup", func(f reflect.StructField) bool { return f.Type == reflect.TypeOf(sync.WaitGroup{}) })
+	return sh
+}
+
+func verifMutex(g *Group) *sync.Mutex {
+	return (*sync.Mutex)(unsafe.Pointer(uintptr(unsafe.Pointer(g)) + verifLayout.mu))
+}
+
+// verifCalls returns the group's map of in-flight calls as a reflect.Value (read it only under the mutex).
+func verifCalls(g *Group) reflect.Value {
+	return reflect.NewAt(verifLayout.callsType, unsafe.Pointer(uintptr(unsafe.Pointer(g))+verifLayout.calls)).Elem()
+}
+
+func verifDups(call reflect.Value) int {
+	return *(*int)(unsafe.Pointer(uintptr(call.UnsafePointer()) + verifLayout.dups))
+}
 
 // VerifSnapshot returns, for every in-flight call, its key and its dups counter.
 func VerifSnapshot(g *Group) map[string]int {
-	g.mu.Lock()
-	defer g.mu.Unlock()
-	out := make(map[string]int, len(g.m))
-	for k, c := range g.m {
-		out[k] = c.dups
+	mu := verifMutex(g)
+	mu.Lock()
+	defer mu.Unlock()
+	m := verifCalls(g)
+	out := make(map[string]int, m.Len())
+	for it := m.MapRange(); it.Next(); {
+		out[it.Key().String()] = verifDups(it.Value())
 	}
 	return out
 }
 
 // VerifLock / VerifUnlock let the driver hold the group's mutex, so that a leader that has
 // finished fn and a newcomer both queue on it (the FnReturn–Cleanup window).
-func VerifLock(g *Group)   { g.mu.Lock() }
-func VerifUnlock(g *Group) { g.mu.Unlock() }
+func VerifLock(g *Group)   { verifMutex(g).Lock() }
+func VerifUnlock(g *Group) { verifMutex(g).Unlock() }
 
 // VerifWaiter returns a function that blocks until the in-flight call of key has signalled
 // Done (it only waits on the call's WaitGroup). Must be called while the driver holds the
 // mutex through VerifLock. Returns nil when no call of that key is in flight.
 func VerifWaiter(g *Group, key string) func() {
-	c, ok := g.m[key]
-	if !ok {
+	c := verifCalls(g).MapIndex(reflect.ValueOf(key))
+	if !c.IsValid() || c.IsNil() {
 		return nil
 	}
-	return c.wg.Wait
+	return (*sync.WaitGroup)(unsafe.Pointer(uintptr(c.UnsafePointer()) + verifLayout.done)).Wait
 }
